@@ -306,6 +306,7 @@ func run(c *vh.Ctx) error {
 			for _, r := range b.effective {
 				effective += len(r.Txs)
 			}
+			res.DistN("double-sign-evidence-accepted", len(b.evidence))
 			for _, t := range b.txs {
 				res.Dist("op-" + t.o.kind)
 				switch {
